@@ -208,8 +208,8 @@ def main(tier, replay):
     V.phase('model checking')
 
     # 2. behaviours generated by TLC ----------------------------------------------
-    nsim = 6000 if thorough else 1200
-    cap = None if thorough else 800     # exhaustive behaviours replayed per configuration
+    nsim = 6000 if thorough else 600
+    cap = None if thorough else 300     # exhaustive behaviours replayed per configuration
     gens = []
     gens.append(('line', 'LineFraming', dict(Alphabet={97, 98}, NL=10, MaxItems=2, MaxLen=1,
                                              MaxChunk=2, KeepHist=True), None))
